@@ -3,7 +3,7 @@ import re
 from ipv import Undecided
 
 
-def insert_stubs(u):
+def insert_stubs(u, no_ctor_key=()):
     """one contract stub per container<T>::insert instantiation of the unit (DESIGN.md A3): returns (C text, [mangled names], table info)"""
     calls = {c['caller']: c['callees'] for c in u.json['calls']}
     byname = {f['name']: f for f in u.json['functions']}
@@ -24,12 +24,13 @@ def insert_stubs(u):
         text += 'static %s* W%d; static %s* LAST%d; static int INS%d;\n#define CMP%d %s\n#define COMP%d_T %s\n' % (elem_t, k, elem_t, k, k, k, cmp_[0], k, comp_t)
         bycopy = key_t.endswith('3RepE') or 'Rep' in key_t.split('_')[-1]
         # ghost record of the first three (element, key) pairs entered, for the CMP-ORDER lemma
-        text += 'static %s* RE%d[3]; static %s %sRK%d[3]; static int REC%d;\n' % (elem_t, k, key_t, '' if bycopy else '*', k, k)
+        text += 'static %s* RE%d[3]; static %s %sRK%d[3]; static %s RC%d[3]; static int REC%d;\n' % (elem_t, k, key_t, '' if bycopy else '*', k, comp_t, k, k)
         keyref = '&RK%d[%%s]' % k if bycopy else 'RK%d[%%s]' % k
         text += '#define SGN(x) ((x) < 0 ? -1 : (x) > 0 ? 1 : 0)\n' if k == 0 else ''
-        text += ('static void order_check%d(void)\n{\n  %s comp; __builtin_memset(&comp, 0, sizeof comp);\n  if (REC%d < 3) return;\n' % (k, comp_t, k)
-                 + '  int c00 = CMP%d(&comp, RE%d[0], %s), c01 = CMP%d(&comp, RE%d[0], %s), c10 = CMP%d(&comp, RE%d[1], %s), c12 = CMP%d(&comp, RE%d[1], %s), c02 = CMP%d(&comp, RE%d[0], %s), c21 = CMP%d(&comp, RE%d[2], %s);\n'
-                   % (k, k, keyref % 0, k, k, keyref % 1, k, k, keyref % 0, k, k, keyref % 2, k, k, keyref % 2, k, k, keyref % 1)
+        # the comparator object is the one passed with the request whose key is compared (it may capture part of the request: get_symbol)
+        text += ('static void order_check%d(void)\n{\n  if (REC%d < 3) return;\n' % (k, k)
+                 + '  int c00 = CMP%d(&RC%d[0], RE%d[0], %s), c01 = CMP%d(&RC%d[1], RE%d[0], %s), c10 = CMP%d(&RC%d[0], RE%d[1], %s), c12 = CMP%d(&RC%d[2], RE%d[1], %s), c02 = CMP%d(&RC%d[2], RE%d[0], %s), c21 = CMP%d(&RC%d[1], RE%d[2], %s);\n'
+                   % (k, k, k, keyref % 0, k, k, k, keyref % 1, k, k, k, keyref % 0, k, k, k, keyref % 2, k, k, k, keyref % 2, k, k, k, keyref % 1)
                  + '  __CPROVER_assert(c00 == 0, "CMP-ORDER: an element compares equal to the key it was built from");\n'
                  + '  __CPROVER_assert(SGN(c01) == -SGN(c10) && SGN(c12) == -SGN(c21), "CMP-ORDER: the comparator is antisymmetric through the key projection");\n'
                  + '  __CPROVER_assert(!(c01 < 0 && c12 < 0) || c02 < 0, "CMP-ORDER: the comparator is transitive");\n'
@@ -41,8 +42,9 @@ def insert_stubs(u):
         text += '  if (W%d != 0 && %s(&comp, W%d, key) == 0) return LAST%d = W%d;   /* an equal element exists: returned, nothing added */\n' % (k, cmp_[0], k, k, k)
         text += '  __typeof__(*%s(0, 0))* n = %s(self, key);                    /* otherwise a new element is built from the key */\n' % (mk[0], mk[0])
         text += '  self->__b0.f_count++;\n'
-        text += '  __CPROVER_assert(%s(&comp, &n->f_data, key) == 0, "CTOR-KEY: the element built from a key compares equal to that key");\n' % cmp_[0]
-        text += '  if (REC%d < 3) { RE%d[REC%d] = &n->f_data; RK%d[REC%d] = %skey; REC%d++; }\n' % (k, k, k, k, k, '*' if bycopy else '', k)
+        if not any(x in byname[cmp_[0]]['qualified'] for x in no_ctor_key):   # tables whose element is completed after insertion (get_symbol sets the type afterwards)
+            text += '  __CPROVER_assert(%s(&comp, &n->f_data, key) == 0, "CTOR-KEY: the element built from a key compares equal to that key");\n' % cmp_[0]
+        text += '  if (REC%d < 3) { RE%d[REC%d] = &n->f_data; RK%d[REC%d] = %skey; RC%d[REC%d] = comp; REC%d++; }\n' % (k, k, k, k, k, '*' if bycopy else '', k, k, k)
         text += '  return LAST%d = &n->f_data;\n}\n\n' % k
         skipped.append(fn)
         info.append(dict(k=k, fn=fn, table=f['qualified'], cmp=byname[cmp_[0]]['qualified'], elem=elem_t))
@@ -50,3 +52,28 @@ def insert_stubs(u):
     return text, skipped, info
 
 
+
+
+def harness_for(name, spec, u, info, prop='C01', init='pools();'):
+    """two-request harness.  spec: pre (C statements declaring the two requests), call1 / call2 (C expressions), same (C condition),
+    checks (list of (C condition over r1, text)), claim (text of the property clause)"""
+    t = 'void h_%s(void)\n{\n  %s\n%s' % (name, init, spec.get('pre', ''))
+    t += '  __typeof__(%s) r1 = %s;\n' % (spec['call1'], spec['call1'])
+    for cond, text in spec.get('checks', []):
+        t += '  __CPROVER_assert(%s, "%s/C02: %s");\n' % (cond, prop, text)
+    t += ''.join('  W%d = LAST%d;\n' % (x['k'], x['k']) for x in info)   # whatever the first request entered is now in its table
+    t += '  __typeof__(%s) r2 = %s;\n' % (spec['call2'], spec['call2'])
+    t += '  __CPROVER_assert(((void*)r1 == (void*)r2) == (%s), "%s: %s");\n' % (spec['same'], prop, spec['claim'])
+    t += '  if (%s) IPR_CANARY_POINT(); else IPR_CANARY_POINT();\n}\n\n' % spec['same']
+    return t
+
+
+def order_harness(name, spec, init='pools();'):
+    """CMP-ORDER lemma for the tables this constructor uses: three requests into empty tables (each builds a new element from
+    its key), then the recorded (element, key) pairs are compared with the comparator clang resolved inside insert."""
+    pre, calls = spec['order']
+    t = 'void h_order_%s(void)\n{\n  %s\n%s' % (name, init, pre)
+    for c in calls:
+        t += '  (void)%s;\n' % c
+    t += '  order_check_all();\n  __CPROVER_assert(ORDER_CHECKED >= 1 || %s, "CMP-ORDER: three requests to one table were recorded");\n  IPR_CANARY_POINT();\n}\n\n' % spec.get('order_may_skip', '0')
+    return t
